@@ -241,6 +241,13 @@ def r5_shared_defaults(ctx):
         for node, desc in sd.writes(f) + sd.handed_over(f, cg):
             n += 1
             ctx.violation("C13.R5", f, node, desc + ": the change outlives the call, so later calls (on any object of the process) no longer depend only on their own inputs")
+    # memoised methods keep, per process, an answer computed from the object's state at the first call
+    for f in ctx.ix.iter_funcs():
+        for d in getattr(f.node, "decorator_list", []):
+            dn = U(d.func) if isinstance(d, ast.Call) else U(d)
+            if dn.split(".")[-1] in ("lru_cache", "cache", "cached_property") and f.cls is not None:
+                ctx.violation("C13.R5", f, d, f"`@{dn}` memoises a method: its answer is computed from the object's state at the first call and returned unchanged afterwards, "
+                              "whatever was fitted / loaded in between")
     for ck, d in sorted(sd.class_level.items()):
         for name, st in sorted(d.items()):
             ctx.ok("C13.R5", (ck[0], ck[1]), st, f"class-level container {ck[1]}.{name}: read-only everywhere", construct=f"{ck[1]}.{name}")
@@ -277,6 +284,7 @@ PM = "src/leaspy/algo/personalize/mcmc.py"
 MC = "src/leaspy/models/mcmc_saem_compatible.py"
 SCM = "src/leaspy/algo/personalize/scipy_minimize.py"
 VARIANTS = [
+    V("memoised-method", "src/leaspy/io/data/dataset.py", "    def to_pandas(self", "    @functools.lru_cache(maxsize=None)\n    def to_pandas(self", "C13.R5"),
     V("class-default-setdefault", SCM, "        self.format_convergence_issues = self.algo_parameters.get(", "        self.scipy_minimize_params.setdefault(\"tol\", 1e-6)\n        self.format_convergence_issues = self.algo_parameters.get(", "C13.R5"),
     V("class-default-nested-write", SCM, "        self.format_convergence_issues = self.algo_parameters.get(",
       "        self.DEFAULT_SCIPY_MINIMIZE_PARAMS_WITHOUT_JACOBIAN[\"options\"][\"maxiter\"] = 50\n        self.format_convergence_issues = self.algo_parameters.get(", "C13.R5"),
